@@ -61,7 +61,7 @@ PoolHist == { Base("r1"), [Base("r1") EXCEPT !.path = <<"dyn", "/X/@m">>],
               [Base("r3") EXCEPT !.host = <<"static", "example.com">>, !.ips = <<<<"in", "10.0.0.0/8">>, <<"not_in", "10.1.0.0/16">>>>],
               [Base("r4") EXCEPT !.scheme = "https", !.methods = <<"GET", "POST">>],
               [Base("r4") EXCEPT !.hdrs = <<H("X-K", "contains", "v")>>, !.times = <<TW>>] }
-PoolHistQ == { Base("r1"), [Base("r1") EXCEPT !.path = <<"dyn", "/X/@m">>],
+PoolHistQ == { Base("r1"), [Base("r1") EXCEPT !.path = <<"dyn", "/X/@m">>], [Base("r1") EXCEPT !.path = <<"dyn", "/X/@n">>],
                [Base("r2") EXCEPT !.path = <<"dyn", "/X/@m/y">>], [Base("r2") EXCEPT !.host = <<"dyn", "@sub.example.com">>],
                [Base("r3") EXCEPT !.host = <<"static", "example.com">>, !.ips = <<<<"in", "10.0.0.0/8">>, <<"not_in", "10.1.0.0/16">>>>],
                \* a rule filed under several buckets of one layer (two methods), and a second plain rule sharing r1's static path
